@@ -8,7 +8,7 @@
     what the other thread's seek/read sequence observes, for EVERY interleaving.
   * `offset_reader_interferes`: one offset-using read in the other thread and an interleaving exists where Apply reads
     other bytes.
-  * `transform_goroutines_positional_generated`: the three producer functions, re-extracted from the Go source on every
+  * `transform_goroutines_positional_generated`: the four producer functions, re-extracted from the Go source on every
     run (tools/extractlocks), only use the shared file positionally.
 -/
 import Relic.Base.Bytes
@@ -76,7 +76,7 @@ theorem offset_reader_interferes :
 /-- generated obligation: every use the producer functions make of the shared file is positional -/
 theorem transform_goroutines_positional_generated :
     positional Generated.Locks.zipToTar = true ∧ positional Generated.Locks.dmgSend = true ∧
-    positional Generated.Locks.machoSend = true := by decide
+    positional Generated.Locks.machoSend = true ∧ positional Generated.Locks.xapWriteTar = true := by decide
 
 /-- the check discriminates: ZipToTar as it was (Seek to the directory, Seek to 0, the file handed to tarAddStream) -/
 def zipToTarOrig : FileUse :=
